@@ -7,8 +7,7 @@
      core_inplace n b tmp = the in-place result of the random branch before `map (unperm_row n p)`
      zrow n b          = the row  (-1)^b Z_0
    NOT proved (hence the `_partial` names): that perm_row / unperm_row are a relabelling of qubit positions at the group
-   level (transport of `gen` along the position permutation), the reading of rows 1.. as "the elements of G commuting
-   with Z_p", the destructive branch at the group level, and everything that needs uniqueness of the reduced row echelon
+   level (transport of `gen` along the position permutation), the destructive branch at the group level, and everything that needs uniqueness of the reduced row echelon
    form (`contains` decides membership: outcome of the deterministic branch, repeat outcome).  Full statements intended:
      meas_random     : random_branch n p t = true -> valid n t -> p < n -> forall b,
                          outcome (measure n p true b t) = b /\
@@ -23,7 +22,7 @@
    These are covered by the exhaustive correspondence + numpy oracle (all states on 1..3 qubits) as a TEST only. *)
 From Coq Require Import List Bool Arith.
 From SQ Require Import Base.ListUtil Stab.Pauli Stab.Kernels Stab.Gates Stab.Tableau Stab.Group Stab.GroupGates
-  Stab.GaussProof Stab.MeasureProof.
+  Stab.GaussProof Stab.MeasureProof Stab.Examples.
 Import ListNotations.
 
 (* random branch: the outcome is the coin, for both coins (hence both outcomes occur), in place and destructive *)
@@ -70,3 +69,28 @@ Print Assumptions C14_meas_repeat_partial_1.
 Theorem C14_meas_repeat_partial_2 : forall n u, 1 <= n -> col0_clear u -> get (nth 0 (gauss n u) []) 0 = false.
 Proof. exact col0_clear_deterministic. Qed.
 Print Assumptions C14_meas_repeat_partial_2.
+
+(* random branch: the generators that are kept (rows 1.. after elimination) generate exactly the elements of the
+   pre-measurement group that commute with Z on the measured qubit; with C14_meas_random_partial the in-place result is
+   therefore  < (-1)^coin Z_0 > . { g in G : g commutes with Z_0 }  in the measured-qubit-first frame *)
+Theorem C14_meas_random_kept_part : forall n p t, 1 <= n ->
+  commuting n (framed n p t) -> random_branch n p t = true ->
+  forall h, gen n (skipn 1 (eliminated n p t)) h <->
+            (gen n (framed n p t) h /\ anti_l (snd h) (z0 n) = false).
+Proof. exact meas_random_kept_part. Qed.
+Print Assumptions C14_meas_random_kept_part.
+
+(* non-vacuity: the Bell pair is in the random branch (both outcomes computed), |00> in the deterministic one *)
+Theorem C14_nonvacuous_random :
+  1 <= 2 /\ wf_tab 2 (framed 2 1 bell) /\ commuting 2 (framed 2 1 bell) /\ random_branch 2 1 bell = true.
+Proof. exact bell_random_branch. Qed.
+Print Assumptions C14_nonvacuous_random.
+Theorem C14_nonvacuous_determined :
+  commuting 2 (framed 2 1 (zero_state 2)) /\ random_branch 2 1 (zero_state 2) = false.
+Proof. exact zero_determined_branch. Qed.
+Print Assumptions C14_nonvacuous_determined.
+Theorem C14_bell_both_outcomes :
+  fst (fst (measure 2 1 true false bell)) = false /\ fst (fst (measure 2 1 true true bell)) = true /\
+  snd (measure 2 1 true true bell) = [[false; false; false; true; true]; [false; false; true; false; true]].
+Proof. exact bell_measured_both_outcomes. Qed.
+Print Assumptions C14_bell_both_outcomes.
